@@ -320,7 +320,7 @@ def l2_backend(name, group, aad, sizes, quick=True, paserk=True, pke=True, publi
             out["C08"].append(H(group, P + "c08_signing_key_codec_" + part, q if part != "secret" else "t", timeout=1500, mem=14, mode="lean", replay="none", fs=4,
                                 doc="%s: a generated key pair: %s" % (name, what)))
         for n in ("c08_asym_wrong_len_short", "c08_asym_wrong_len_long", "c08_asym_wrong_len_33"):
-            out["C08"].append(H(group, P + n, "t", timeout=900, mem=14, mode="full", replay="none", doc="%s: public/secret key decoders reject byte strings of a wrong length (%s)" % (name, n.rsplit("_", 1)[1])))
+            out["C08"].append(H(group, P + n, "t", timeout=2400, mem=14, mode="lean", replay="none", doc="%s: public/secret key decoders reject byte strings of a wrong length (%s)" % (name, n.rsplit("_", 1)[1])))
         for n, ln in (("c10_pke_key_wrong_len_32", "32 = a local key"), ("c10_pke_key_wrong_len_33", "33 = a key id"), ("c10_pke_key_wrong_len_short", "secret length - 1")):
             out["C08"].append(H(group, P + n, q if n.endswith("_32") else "t", timeout=900, mem=14, mode="full", replay="none",
                                 doc="%s: the PKE public/secret key decoders (same text headers as public/secret) reject byte strings of another length (%s)" % (name, ln)))
